@@ -30,7 +30,7 @@ BORROW = {
     # operators: crossings -> split -> classify pieces (point membership) -> follow paths -> group; containment short-cuts
     "C01": [("C15", "r15_1"), ("C15", "r15_5")] + INTER + POINT + COMPOSITE + CONTAIN + SIGN + CHAIN,
     # point membership: orientation sign, on-curve test, angle wrap
-    "C02": [("C18", "r18_5"), ("C18", "r18_6"), ("C18", "r18_11"), ("C12", "r12_2"), ("C17", "r17_9"), ("C18", "r18_13"),
+    "C02": [("C04", "r04_7"), ("C18", "r18_5"), ("C18", "r18_6"), ("C18", "r18_11"), ("C12", "r12_2"), ("C17", "r17_9"), ("C18", "r18_13"),
             ("C18", "r18_14"), ("C06", "r06_4")] + SIGN + ALGEBRA,          # R06.4: the shapes asked are grouped by ShapeFromJordans
     # containment samples points of the candidate and uses its crossings with the boundary and the areas
     "C03": [("C02", "r02_1"), ("C02", "r02_2"), ("C02", "r02_3b"), ("C18", "r18_9"), ("C18", "r18_5")] + INTER[:6] + SIGN + FLOATS,
@@ -64,7 +64,7 @@ BORROW = {
     # stored) survives an interruption for the rest of the process (R10.2: memoised values are never mutated)
     "C11": [("C10", "r10_2")],
     # ... and a rotated / scaled drawing has crossings whose coordinates agree on the two curves up to rounding only
-    "C12": ALGEBRA + [("C01", "r01_7"), ("C04", "r04_3"), ("C03", "r03_1"), ("C09", "r09_1"), ("C09", "r09_2"), ("C09", "r09_3"), ("C09", "r09_4"), ("C04", "r04_4")],
+    "C12": ALGEBRA + [("C01", "r01_7"), ("C04", "r04_3"), ("C16", "r16_4"), ("C03", "r03_1"), ("C09", "r09_1"), ("C09", "r09_2"), ("C09", "r09_3"), ("C09", "r09_4"), ("C04", "r04_4")],
     # every constructor ends in the segments setter, which degree-reduces each segment (BezierCurve.clean)
     "C17": [("C13", "r13_4"), ("C18", "r18_13"), ("C15", "r15_2"), ("C15", "r15_3"), ("C07", "r07_12"), ("C07", "r07_8"), ("C07", "r07_11")],   # == of two descriptions unites pieces
     # ... evaluated exactly for rational data: no intermediate point of the Horner scheme is rounded to the cap
